@@ -19,7 +19,11 @@ Alphabet (ops are JSON lists, locations are indices into the init's location uni
   ["dfresh", d, i]      FuelHandler.dischargeSwap(core.createAssemblyOfType(design d), a_i)
   ["dpool", p, i]       FuelHandler.dischargeSwap(pooled assembly p, a_i)
   ["remove", i, dis]    core.removeAssembly(a_i, discharge=bool(dis))
-  ["add", d, i]         core.add(fresh of design d, empty location i)
+  ["add", d, i, form]   core.add(fresh of design d, empty location i): form 0 = locator passed to add(),
+                        form 1 = locator assigned to the assembly first, add() without locator
+  ["replace", d, i, dis] fresh.spatialLocator = loc_i; core.removeAssembly(a_i, dis); core.add(fresh)
+  ["readd", a]          core.add(purged assembly a) back at the (free) place it was taken from, located
+                        by the detached locator it still carries
   ["addocc", d, i]      core.add(fresh, OCCUPIED location i)   contract: ValueError, state unchanged
   ["addout", d]         core.add(fresh, a location outside the third-core domain)  contract: LookupError, unchanged
 Contracts: differing stationary layouts => ValueError with the state unchanged.
@@ -50,6 +54,19 @@ MASS_RTOL = 1e-10
 # a cell that is not in the represented third of a third-core hex grid (polar angle 180 degrees)
 OUTSIDE_THIRD = (-2, 1)
 # assemblies a "filled" pool holds from the blueprints: (pool cell, specifier), labels p0, p1
+# stationary settings: kind -> stationaryBlockFlags. Every assembly of the stationary specs is
+# [grid plate, fuel, plenum], so the kinds put the stationary block(s) at the bottom, the top, both
+# ends, the middle, everywhere; the exchange re-inserts a block at the start / middle / end of the list
+STAT_FLAGS = {
+    "none": [],
+    "gp": ["GRID_PLATE"],
+    "top": ["PLENUM"],
+    "both": ["GRID_PLATE", "PLENUM"],
+    "mid": ["FUEL"],
+    "all": ["GRID_PLATE", "FUEL", "PLENUM"],
+    "mixed": ["GRID_PLATE"],
+}
+FLAG_BLOCK = {"GRID_PLATE": "grid plate", "FUEL": "fuel", "PLENUM": "plenum"}
 POOL_FILL = [([0, 0], "IC"), ([1, 0], "OC")]
 
 # name -> hex_spec arguments, occupied cells (None = every in-domain cell), extra empty locations
@@ -102,6 +119,8 @@ class Model:
     def __init__(self, init, spec):
         self.track = bool(init["track"])
         self.flags = init["stat"] != "none"
+        self.statblocks = {FLAG_BLOCK[f] for f in STAT_FLAGS[init["stat"]]}
+        self.lastcell = {}  # purged label -> location index it was taken from
         self.blocks = {name: list(a["blocks"]) for name, a in spec["assemblies"].items()}
         self.heights = {name: list(a["heights"]) for name, a in spec["assemblies"].items()}
         self.universe = universe_of(init, spec)
@@ -130,7 +149,7 @@ class Model:
                 self.pool_cells[label] = list(cell)
 
     def layout(self, dname):
-        return [k for k, bn in enumerate(self.blocks[dname]) if self.flags and bn == "grid plate"]
+        return [k for k, bn in enumerate(self.blocks[dname]) if bn in self.statblocks]
 
     def _new(self, label, dname):
         st = self.layout(dname)
@@ -179,19 +198,22 @@ class Model:
             return "ok" if self.layout(DESIGNS[op[1]]) == self.lay(self.loc[op[2]]) else "refused:ValueError"
         if kind == "dpool":
             return "ok" if self.lay(op[1]) == self.lay(self.loc[op[2]]) else "refused:ValueError"
-        if kind in ("remove", "add"):
+        if kind in ("remove", "add", "replace"):
             return "ok"
+        if kind == "readd":
+            return "ok" if op[1] in self.purged and self.lastcell.get(op[1]) not in self.loc else None
         if kind == "addocc":
             return "refused:ValueError"
         if kind == "addout":
             return "refused:LookupError"
         raise ValueError(op)
 
-    def _discharge(self, label, tracked=True):
+    def _discharge(self, label, tracked=True, cell=None):
         if tracked and self.track:
             self.pool.append(label)
         else:
             self.purged.append(label)
+            self.lastcell[label] = cell
 
     def commit(self, op, inc=None):
         kind = op[0]
@@ -217,17 +239,28 @@ class Model:
             self.moves[inc] += 1
             if inc in self.pool:
                 self.pool.remove(inc)
-            self._discharge(out)
+            self._discharge(out, cell=i)
         elif kind == "remove":
             i = op[1]
             a = self.loc.pop(i)
             self.stat[("A", a)] = self.stat.pop(("L", i))
-            self._discharge(a, tracked=bool(op[2]))
+            self._discharge(a, tracked=bool(op[2]), cell=i)
         elif kind == "add":
             i = op[2]
             self.loc[i] = inc
             self.stat[("L", i)] = self.stat.pop(("A", inc))
             self.moves[inc] += 1
+        elif kind == "replace":
+            # plain remove + add at the same place: no exchange, each keeps its own blocks
+            self.commit(["remove", op[2], op[3]])
+            self.commit(["add", op[1], op[2]], inc)
+        elif kind == "readd":
+            a = op[1]
+            i = self.lastcell.pop(a)
+            self.purged.remove(a)
+            self.loc[i] = a
+            self.stat[("L", i)] = self.stat.pop(("A", a))
+            self.moves[a] += 1
         else:
             raise ValueError(op)
 
@@ -257,9 +290,19 @@ def enabled_ops(m, init):
             ops.append(["dfresh", d, i])
     for d in al["fresh"]:
         for i in emp:
-            ops.append(["add", d, i])
+            for form in al.get("addforms", [0]):
+                ops.append(["add", d, i, form])
+    if al.get("replace"):
+        for i in occ:
+            for dis in (1, 0):
+                ops.append(["replace", al["fresh"][0], i, dis])
+    if al.get("readd"):
+        for a in m.purged[-al["readd"] :]:
+            if m.lastcell.get(a) is not None and m.lastcell[a] not in m.loc:
+                ops.append(["readd", a])
     for i in occ[: al.get("addocc", 0)]:
-        ops.append(["addocc", al["fresh"][0], i])
+        for form in al.get("addforms", [0]):
+            ops.append(["addocc", al["fresh"][0], i, form])
     if al.get("addout") and CORES[init["core"]]["third"]:
         ops.append(["addout", al["fresh"][0]])
     for p in m.pool[-al.get("pool", 99) :]:
@@ -343,7 +386,7 @@ def build_state(init):
     from armi.physics.fuelCycle.fuelHandlers import FuelHandler
 
     spec = make_spec(init)
-    flags = ["GRID_PLATE"] if init["stat"] != "none" else []
+    flags = list(STAT_FLAGS[init["stat"]])
     cs = build.settings(trackAssems=bool(init["track"]), stationaryBlockFlags=flags)
     r = build.reactor(spec, cs=cs, seed=1400 + int(init.get("seed", 0)))
     o = _operator(cs)
@@ -434,7 +477,22 @@ def apply_op(s, m, op, init, viols, case):
             f, inc = _fresh(s, m, op[1])
             before = snapshot(s) if exp != "ok" else None
             i, j = m.universe[op[2]]
-            s.core.add(f, s.core.spatialGrid[i, j, 0])
+            if len(op) > 3 and op[3] == 1:
+                # the assembly carries the core locator itself, add() gets no locator
+                f.spatialLocator = s.core.spatialGrid[i, j, 0]
+                s.core.add(f)
+            else:
+                s.core.add(f, s.core.spatialGrid[i, j, 0])
+        elif kind == "replace":
+            # remove-and-replace with the locator handed to the new assembly BEFORE the old one leaves
+            f, inc = _fresh(s, m, op[1])
+            i, j = m.universe[op[2]]
+            f.spatialLocator = s.core.spatialGrid[i, j, 0]
+            s.core.removeAssembly(s.obj[m.loc[op[2]]], discharge=bool(op[3]))
+            s.core.add(f)
+        elif kind == "readd":
+            # a purged assembly goes back where it was: it still carries a detached copy of that locator
+            s.core.add(s.obj[op[1]])
         elif kind == "addout":
             f, inc = _fresh(s, m, op[1])
             before = snapshot(s)
@@ -475,7 +533,7 @@ def apply_op(s, m, op, init, viols, case):
 def _aftermath(s, m, op):
     """Where the assembly an operation was working on ended up after an unexpected exception."""
     try:
-        if op[0] in ("remove", "dfresh", "dpool"):
+        if op[0] in ("remove", "dfresh", "dpool", "replace"):
             label = m.loc[op[1] if op[0] == "remove" else op[2]]
             a = s.obj[label]
             inc = any(x is a for x in s.core)
@@ -703,7 +761,7 @@ def canon(s, m):
     for l in m.pool:
         sl = s.obj[l].spatialLocator
         pool.append([m.desc(l), [m.bdesc(b) for b in m.expected_blocks(l)], [int(sl.i), int(sl.j)] if hasattr(sl, "i") else None])
-    purged = sorted([m.desc(l), [m.bdesc(b) for b in m.expected_blocks(l)]] for l in m.purged)
+    purged = sorted([m.desc(l), [m.bdesc(b) for b in m.expected_blocks(l)], m.lastcell.get(l)] for l in m.purged)
     # objects still reachable under a name they no longer carry: real (hidden) state of the lookup
     # tables that a later purge can expose, so two states differing in it are not merged
     alias = sorted(
@@ -781,44 +839,45 @@ def inits(ctx):
         al.update(alpha)
         out.append(({"core": core, "track": track, "stat": stat, "sfp": pool != "default", "poolfill": pool == "filled", "seed": seed, "alpha": al}, depth))
 
+    FULL = {"addforms": [0, 1], "replace": 1, "readd": 1}
+    LEAN = {"fresh": [0], "triples": "rot", "addocc": 0, "addout": 0}
     if ctx.quick:
-        # breadth: every 7-assembly core x tracking x stationary setting, every pair of locations
-        for c in ("third7", "full7"):
-            for track in (True, False):
-                for stat in ("none", "gp"):
-                    add(c, track, stat, 1)
+        # breadth: every pair of locations of the 7-assembly cores, every operation once
         for track in (True, False):
-            add("third7", track, "mixed", 1)
+            for stat in ("none", "all"):
+                add("third7", track, stat, 1, **FULL)
+            add("full7", track, "both", 1, **FULL)
             add("third7", track, "none", 1, pool="default", triples="none", addocc=0)
-        # every (tracking x stationary x pool) configuration to depth 2 on the third-core mini core
+        add("third7", True, "mixed", 1)
+        # every stationary position class x tracking to depth 2 on the mini core with a filled pool
         for track in (True, False):
-            for stat in ("none", "gp", "mixed"):
-                for pool in ("empty", "filled"):
-                    add("third3", track, stat, 2, pool=pool, fresh=[0, 1] if stat == "mixed" else [0], triples="rot", addocc=1)
             for stat in ("none", "gp"):
-                add("third3", track, stat, 2, pool="default", fresh=[0], triples="rot", addocc=1)
-        add("third3", True, "gp", 3, pool="empty", fresh=[0], triples="none", addocc=0, addout=0, pool_=1)
+                add("third3", track, stat, 2, fresh=[0], triples="rot", addocc=1, **FULL)
+            for stat in ("top", "all") if not track else ("top", "both", "mid", "all"):
+                add("third3", track, stat, 2, **LEAN)
+            add("third3", track, "mixed", 2, triples="rot", addocc=0, addout=0)
+            # the other pool kinds
+            add("third3", track, "gp", 2, pool="empty", fresh=[0], triples="rot", addocc=1, **FULL)
+            add("third3", track, "none", 2, pool="default", fresh=[0], triples="rot", addocc=1, **FULL)
     else:
         for c in ("third7", "full7"):
             for track in (True, False):
-                for stat in ("none", "gp"):
-                    add(c, track, stat, 2)
+                for stat in ("none", "gp", "all"):
+                    add(c, track, stat, 2, **(FULL if stat == "none" else {}))
         for track in (True, False):
             add("third7", track, "mixed", 2)
             add("third7", track, "none", 1, pool="default", triples="all")
-            add("third7", track, "gp", 1, pool="empty", triples="all")
-            add("full7", track, "gp", 1, pool="empty", triples="all")
-        for c in ("third3", "full3"):
-            for track in (True, False):
-                for stat in ("none", "gp", "mixed"):
-                    add(c, track, stat, 3, pool="empty" if c == "full3" else "filled", triples="rot", addocc=1)
+            add("third7", track, "both", 1, pool="empty", triples="all", **FULL)
+            add("full7", track, "mid", 1, pool="empty", triples="all", **FULL)
         for track in (True, False):
+            for stat in ("none", "gp", "top", "both", "mid", "all", "mixed"):
+                add("third3", track, stat, 3, triples="rot", addocc=1, **(FULL if stat in ("none", "gp") else {}))
+                add("third3", track, stat, 2, pool="empty", triples="rot", addocc=1, **FULL)
+                add("third3", track, stat, 2, pool="default", triples="rot", addocc=1, **FULL)
             for stat in ("none", "gp", "mixed"):
+                add("full3", track, stat, 3, pool="empty", triples="rot", addocc=1, **FULL)
                 add("third4", track, stat, 2, addocc=1)
-                add("third3", track, stat, 2, pool="empty", triples="rot", addocc=1)
-            for stat in ("none", "gp", "mixed"):
-                add("third3", track, stat, 2, pool="default", triples="rot", addocc=1)
-        for track, stat, pool in ((True, "gp", "empty"), (False, "gp", "filled")):
+        for track, stat, pool in ((True, "both", "empty"), (False, "gp", "filled")):
             add("third3", track, stat, 4, pool=pool, fresh=[0], triples="rot", addocc=0, addout=0, pool_=1)
     for init, _d in out:  # 'pool' is the pool kind in add(); the alphabet bound is spelled pool_ there
         if "pool_" in init["alpha"]:
@@ -832,7 +891,22 @@ def config_of(init):
 
 # a state whose only violation is this one (present from the initial state on) is still extended
 SOFT_KEYS = [K + "lookup-misses-blueprint-pool-assembly"]
-OPKINDS = ["swap", "casc", "dfresh", "dpool", "remove", "add", "addocc", "addout"]
+OPKINDS = ["swap", "casc", "dfresh", "dpool", "remove", "add", "replace", "readd", "addocc", "addout"]
+
+
+def insert_positions(plan):
+    """Per stationary kind of the plan: the list positions at which the stationary exchange
+    re-inserts a block (the other stationary block has just been removed, so the list has n-1
+    entries): start / middle / end."""
+    out = {}
+    for init, _d in plan:
+        spec = make_spec(init)
+        m = Model(init, spec)
+        pos = out.setdefault(init["stat"], set())
+        for dname, blocks in m.blocks.items():
+            for k in m.layout(dname):
+                pos.add("start" if k == 0 else ("end" if k == len(blocks) - 1 else "middle"))
+    return {k: sorted(v) for k, v in out.items()}
 
 
 def alphabet_matrix(plan):
@@ -870,7 +944,7 @@ def alphabet_matrix(plan):
 def _model_step(m, op):
     exp = m.expect(op)
     inc = None
-    if op[0] in ("dfresh", "add", "addocc", "addout"):
+    if op[0] in ("dfresh", "add", "addocc", "addout", "replace"):
         inc = m.fresh_label(op[1])
     elif op[0] == "dpool":
         inc = op[1]
@@ -902,6 +976,7 @@ def run(ctx):
             "plan": [{"init": {k: v for k, v in i.items() if k != "seed"}, "depth": d} for i, d in plan],
             "depth_max": max(d for _i, d in plan),
             "alphabet_enabled_within_depth2": mat,
+            "stationary_insert_positions": insert_positions(plan),
             "alphabet_not_enabled_within_depth2": notenabled,
             # every history up to the stated depth was executed (bounded-exhaustive), but the reachable
             # state space is not closed at that depth: new canonical states still appear at the last level
